@@ -2,7 +2,7 @@
    contains statements, `exact`, and Print Assumptions only. *)
 From Coq Require Import List NArith Bool Sorted.
 From V.gen Require Consts.
-From V.Ts Require Import Model Proofs Answers Report ReportProofs ReportDead ReportDeadProofs.
+From V.Ts Require Import Model Proofs Answers Extra Exact Multi MultiProofs Report ReportProofs ReportDead ReportDeadProofs.
 Import ListNotations.
 Open Scope N_scope.
 
@@ -267,6 +267,21 @@ Theorem C08_closed_reaches_live :
 Proof. exact closed_reaches_live. Qed.
 Print Assumptions C08_closed_reaches_live.
 
+(* Established and Closed are paired: for every history (kills at any point, any capacity), every
+   protocol that is alive at the end has been handed exactly the accepted established / closed
+   reports of the history, each once and in order (conn_reports is computed from the inputs and
+   their result codes alone, it does not depend on the protocol). So a protocol told "established"
+   for a connection is told "closed" for it exactly when, and as often as, the connection task
+   reports it — once — unless the protocol exits first; and by the conservation theorem of the
+   live channel these events are delivered in that order. *)
+Theorem C08_established_closed_paired :
+  forall l nproto cap p ch,
+  nth_error (r_ch (d_s (dfinal (dinit nproto cap) l))) p = Some ch ->
+  is_dead (dfinal (dinit nproto cap) l) (N.of_nat p) = false ->
+  filter is_conn_item (racc ch) = conn_reports l (drun (dinit nproto cap) l).
+Proof. exact established_closed_paired. Qed.
+Print Assumptions C08_established_closed_paired.
+
 (* the repaired code never gives a connection up: d_gone stays empty *)
 Theorem C08_no_connection_given_up :
   forall d o, d_gone d = [] -> d_gone (fst (dstep d o)) = [].
@@ -311,6 +326,150 @@ Theorem C08_no_closed_without_report :
   ~ In (IClosed c) (racc ch) -> ~ In (IClosed c) (racc ch').
 Proof. exact only_closed_reports_closed. Qed.
 Print Assumptions C08_no_closed_without_report.
+
+(* ---- outside the manager's contract: what the service does, and what survives ----
+   ConnectionEstablished / ConnectionClosed alternate per peer for EVERY history, from every
+   state — no feasibility assumption: more than two connections per peer, closed or substream
+   notifications for unknown connections, answers for unknown requests. Established is emitted
+   exactly when the peer gets its context, closed exactly when the context is removed (hc). What
+   is lost outside the contract is the link between "has a context" and "has an open connection"
+   (C08_needs_two_per_peer), not the alternation. *)
+Theorem C08_alternation_unconditional :
+  forall tr s q, alternates (hc (s_ctxs s) q) (conn_evs q (concat (run s tr))).
+Proof. exact alternation_any. Qed.
+Print Assumptions C08_alternation_unconditional.
+
+(* the only panic site of the service, debug_assert!(false) in on_connection_closed (a panic in
+   debug builds, a logged no-op in release builds), is reached exactly by a closed notification for
+   a peer the service has no connection to — whatever else the history contains — ... *)
+Theorem C08_panic_exactly_unknown_peer :
+  forall s dt i,
+  In OPanic (snd (step s dt i)) <-> exists p c, i = EClosed p c /\ find_ctx p (s_ctxs s) = None.
+Proof. exact panic_iff. Qed.
+Print Assumptions C08_panic_exactly_unknown_peer.
+
+(* ... and never inside the contract *)
+Theorem C08_no_panic_in_contract :
+  forall ka T n0 tr,
+  feasible 2 env0 (init ka T n0) tr = true -> ~ In OPanic (concat (run (init ka T n0) tr)).
+Proof. intros ka T n0 tr F. exact (no_panic tr env0 (init ka T n0) conn_inv_init F). Qed.
+Print Assumptions C08_no_panic_in_contract.
+
+(* a third connection of a peer is rejected: no event, contexts and tracker untouched, no
+   keep-alive activity (its handle is dropped with the event) *)
+Theorem C08_third_connection_ignored :
+  forall s p c cx h,
+  find_ctx p (s_ctxs s) = Some cx -> c_sec cx = Some h ->
+  snd (handle_ev s (EEst p c)) = [] /\ ka_activity_of s (EEst p c) = None /\
+  s_ctxs (fst (handle_ev s (EEst p c))) = s_ctxs s /\ s_last (fst (handle_ev s (EEst p c))) = s_last s /\
+  s_timers (fst (handle_ev s (EEst p c))) = s_timers s.
+Proof. exact third_ignored. Qed.
+Print Assumptions C08_third_connection_ignored.
+
+(* a closed notification whose id is not the primary's: nothing is emitted and the primary stays,
+   but the secondary slot is emptied whatever it held (secondary.take()) *)
+Theorem C08_closed_unknown_id_drops_secondary :
+  forall s p c cx,
+  find_ctx p (s_ctxs s) = Some cx -> h_id (c_prim cx) <> c ->
+  snd (handle_ev s (EClosed p c)) = [] /\
+  find_ctx p (s_ctxs (fst (handle_ev s (EClosed p c)))) = Some (mkCtx p (c_prim cx) None).
+Proof. exact closed_unknown_id. Qed.
+Print Assumptions C08_closed_unknown_id_drops_secondary.
+
+(* ---- force_close ----
+   the call is invisible to the service: contexts, tracker, counter and opens in flight are what a
+   plain poll at the same instant leaves; its ForceClose commands (which carry no permit) go only to
+   open connections of that peer; PeerDoesntExist exactly when the peer has no open connection, Ok
+   only together with the command to the primary, ChannelClogged only for a full primary channel *)
+Theorem C08_force_close_invisible :
+  forall s dt p fs fp, fst (step s dt (EForce p fs fp)) = fst (step s dt ENone).
+Proof. exact force_state. Qed.
+Print Assumptions C08_force_close_invisible.
+
+Theorem C08_force_close_targets :
+  forall e s dt i c,
+  conn_inv e (s_ctxs s) (s_pend s) -> In (OForce c) (snd (step s dt i)) ->
+  exists p fs fp, i = EForce p fs fp /\ In c (live_of p (e_live e)).
+Proof. exact force_targets. Qed.
+Print Assumptions C08_force_close_targets.
+
+Theorem C08_force_close_result :
+  forall e s dt p fs fp r,
+  conn_inv e (s_ctxs s) (s_pend s) -> In (ORetF r) (snd (step s dt (EForce p fs fp))) ->
+  (r = 1 <-> live_of p (e_live e) = []) /\
+  (r = 0 -> exists c, hd_error (live_of p (e_live e)) = Some c /\ In (OForce c) (snd (step s dt (EForce p fs fp)))) /\
+  (r = 3 -> fp = true) /\ r <= 3.
+Proof. exact force_result. Qed.
+Print Assumptions C08_force_close_result.
+
+(* ---- several protocols of one node (Multi.v): every TransportService inside the composition ----
+   N services with their own keep-alive flags and timeouts share the connections: the command
+   channel of a connection (ProtocolSet::rx) with its bounded FIFO queue, the strong-sender count
+   of that channel (ConnectionHandle / Permit), the substream-id counter. For every feasible
+   history of the composition and every service k of it, the events that service hands its
+   protocol for a peer q form (ConnectionEstablished (SubstreamOpened|SubstreamOpenFailure)*
+   ConnectionClosed)* — what the other protocols do on the same connections (their opens, their
+   downgrades, a clogged command channel, the order in which the connection task takes commands)
+   does not disturb it. *)
+Theorem C08_multi_stream_wellformed :
+  forall tr cap cfg n0 q k,
+  mfeasible 2 env0 (minit cap cfg n0) tr = true -> (k < length cfg)%nat ->
+  exists b, wf_run false (pevs q (comp_outs k (mrun (minit cap cfg n0) tr))) = Some b.
+Proof.
+  intros tr cap cfg n0 q k F LT. eexists.
+  apply (multi_stream_wf tr env0 (minit cap cfg n0) q k (minit_exact cap cfg n0) F).
+  unfold minit. cbn [m_svcs]. rewrite map_length. exact LT.
+Qed.
+Print Assumptions C08_multi_stream_wellformed.
+
+(* identifiers returned by open_substream of ALL services of a node, in the order of the calls,
+   are strictly increasing — never reused across protocols either — while the shared counter does
+   not wrap (mdraws: one per open_substream call of any service) *)
+Theorem C08_multi_ids_fresh :
+  forall tr m,
+  m_next m + mdraws tr < ID_MOD ->
+  StronglySorted N.lt (flat_map mret (mrun m tr)) /\
+  Forall (fun i => m_next m <= i) (flat_map mret (mrun m tr)).
+Proof. exact multi_ids_sorted. Qed.
+Print Assumptions C08_multi_ids_fresh.
+
+(* the single-service model leaves "strong senders held by other protocols" to its environment;
+   inside the composition that environment is exact: after every step every service sees, for
+   every connection it knows, precisely the shared channel (the sum over all services of Active
+   handle + live keep-alive substreams + opens in flight) *)
+Theorem C08_multi_view_exact :
+  forall m dt e s c,
+  In s (m_svcs (fst (mstep m dt e))) -> find_ch c (s_chans s) <> None ->
+  strong s c = mstrong (m_svcs (fst (mstep m dt e))) c.
+Proof. exact mstep_view. Qed.
+Print Assumptions C08_multi_view_exact.
+
+(* the shared command channel of a connection (ProtocolSet::rx behind the ConnectionHandles of all
+   protocols) loses nothing: as long as the connection is not reported closed, the commands its
+   connection task has taken with next(), followed by what is still queued, are exactly the
+   OpenSubstream / ForceClose commands the services issued for it, in the order they were issued.
+   With C09_multi_next_none_iff (next() returns None only on an empty queue) every accepted open
+   reaches the connection task before the task can end. *)
+Theorem C08_multi_commands_fifo :
+  forall tr m c,
+  forallb (fun de => negb (closes c (snd de))) tr = true ->
+  taken c tr (mrun m tr) ++ qfind c (m_q (mfinal m tr)) = qfind c (m_q m) ++ issued c (mrun m tr).
+Proof. exact queue_conservation. Qed.
+Print Assumptions C08_multi_commands_fifo.
+
+(* non-vacuity: two services, command channel of capacity 1: the second open meets a full channel
+   (ChannelClogged) and draws an identifier all the same; the connection task takes the first
+   command, a third open is accepted with the next identifier *)
+Example C08_multi_nonvacuous :
+  let tr := [(0, MAll (EEst 0 1)); (0, MOne 0 (EOpen 0)); (0, MOne 1 (EOpen 0)); (0, MNext 1);
+             (0, MOne 1 (EOpen 0)); (0, MNext 1); (0, MOne 0 (ESubOut 0 true))] in
+  mfeasible 2 env0 (minit 1 [(true, 300); (false, 500)] 0) tr = true /\
+  map (fun o => (map ret_ids (fst o), snd o)) (mrun (minit 1 [(true, 300); (false, 500)] 0) tr) =
+  [([[]; []], NNo); ([[0]; []], NNo); ([[]; []], NNo); ([[]; []], NCmd 0 0);
+   ([[]; [2]], NNo); ([[]; []], NCmd 1 2); ([[]; []], NNo)] /\
+  comp_outs 0 (mrun (minit 1 [(true, 300); (false, 500)] 0) tr) = [OEst 0; ORet 0 0; OCmd 1 0; OSub 0 (Some 0)] /\
+  comp_outs 1 (mrun (minit 1 [(true, 300); (false, 500)] 0) tr) = [OEst 0; ORet 3 0; ORet 0 2; OCmd 1 2].
+Proof. vm_compute. repeat split; reflexivity. Qed.
 
 (* Without C06's "at most two connections per peer" the statement is false: with three, closing
    the ignored third drops the live secondary (secondary.take() on an unknown id), and the
